@@ -19,6 +19,8 @@ VIS = [":", ":", ":", "::", ":::"]
 class Hist:
     """binds: list of terms (bind i may refer to binds < i); root: term.
     term := ('lit', [(key, vis, plus, const)]) | ('plus', t, t) | ('rm', t, key) | ('ref', i) | ('obs', t, how)
+            const is an integer, or ('insuper', k) = `"k" in super`, or ('superor', k, c) = `if "k" in super then super.k else c`
+            (presence / guarded value of a key in the layers to the left: after a removal the key must be gone for every observer)
           | ('comp', [(key, const)])        object comprehension: all fields visible
     """
 
@@ -37,7 +39,16 @@ def gen(rng, size=None, keys=KEYS):
     def lit():
         n = rng.choice([0, 1, 1, 2, 2, 3])
         ks = rng.sample(keys, min(n, len(keys)))
-        return ("lit", [(k, rng.choice(VIS), rng.random() < 0.2, const()) for k in ks])
+        fs = []
+        for k in ks:
+            r = rng.random()
+            if r < 0.12:
+                fs.append((k, rng.choice(VIS), False, ("insuper", rng.choice(keys))))
+            elif r < 0.24:
+                fs.append((k, rng.choice(VIS), False, ("superor", rng.choice(keys), const())))
+            else:
+                fs.append((k, rng.choice(VIS), rng.random() < 0.2, const()))
+        return ("lit", fs)
 
     def term(budget, nb):
         k = rng.random()
@@ -58,11 +69,28 @@ def gen(rng, size=None, keys=KEYS):
             return ("ref", rng.randrange(nb))
         return lit()
 
+    def sanitize(t, banned):
+        """A field that observes key k (presence or guarded value in super) inside an object from which k is removed later
+        'reads the removed one': the statement promises nothing about it, so such observers are replaced by constants.
+        Observers to the right of / outside the removal stay: for them the key must be gone."""
+        k = t[0]
+        if k == "lit":
+            return ("lit", [(key, vis, plus, (c[-1] if c[0] == "superor" else 7) if isinstance(c, tuple) and c[1] in banned else c)
+                            for key, vis, plus, c in t[1]])
+        if k == "plus":
+            return ("plus", sanitize(t[1], banned), sanitize(t[2], banned))
+        if k == "rm":
+            return ("rm", sanitize(t[1], banned | {t[2]}), t[2])
+        if k == "obs":
+            return ("obs", sanitize(t[1], banned), t[2])
+        return t
+
     size = size if size is not None else rng.choice([2, 3, 4, 5, 6, 8])
     binds = []
     for i in range(rng.choice([0, 1, 2, 3])):
-        binds.append(term(rng.randint(0, 3), i))
-    return Hist(binds, term(size, len(binds)))
+        # shared sub-objects may end up under any removal: no observers in them
+        binds.append(sanitize(term(rng.randint(0, 3), i), set(keys)))
+    return Hist(binds, sanitize(term(size, len(binds)), set()))
 
 
 # ---------------------------------------------------------------------------------------------- printing
@@ -74,7 +102,13 @@ OBS = ["std.length(std.objectFieldsAll(%s)) >= 0", "std.length(std.toString(%s))
 def render_term(t):
     k = t[0]
     if k == "lit":
-        return "{" + ", ".join("%s%s%s %d" % (key, "+" if plus else "", vis, c) for key, vis, plus, c in t[1]) + "}"
+        def val(c):
+            if isinstance(c, tuple) and c[0] == "insuper":
+                return '(if "%s" in super then 1 else 0)' % c[1]
+            if isinstance(c, tuple):
+                return '(if "%s" in super then super.%s else %d)' % (c[1], c[1], c[2])
+            return "%d" % c
+        return "{" + ", ".join("%s%s%s %s" % (key, "+" if plus else "", vis, val(c)) for key, vis, plus, c in t[1]) + "}"
     if k == "comp":
         return "{[kv[0]]: kv[1] for kv in [%s]}" % ", ".join('["%s", %d]' % (key, c) for key, c in t[1])
     if k == "plus":
@@ -127,7 +161,12 @@ def model(h):
     vis = {}
     val = {}
     for layer in layers:
+        before = dict(val)          # what the layers to the left define (all fields of a layer see the same super)
         for key, (v, plus, c) in layer.items():
+            if isinstance(c, tuple) and c[0] == "insuper":
+                c = 1 if c[1] in before else 0
+            elif isinstance(c, tuple):
+                c = before[c[1]] if c[1] in before else c[2]
             if v == "::":
                 vis[key] = False
             elif v == ":::":
